@@ -4,7 +4,6 @@ CONSTANTS
   Idx = {1, 2, 3}
   Rounds = {1, 2}
   Prevs = {0, 1}
-INVARIANTS TypeOK Inv_Accounted
+INVARIANTS TypeOK Inv_Accounted Inv_SigsBounded Inv_RcvdBounded
 PROPERTIES Act_NoCrossEviction Act_DuplicateIsNoOp
 VIEW View
-CONSTRAINT RcvdCut
